@@ -169,7 +169,7 @@ class KInterp:
     # ------------------------------------------------------------------ statements
     def block(self, stmts, st):
         for i, s in enumerate(stmts):
-            if st["returned"]:
+            if st["returned"] or st.get("arm_dead"):
                 return
             if getattr(self, "resilient", False):
                 try:
@@ -272,9 +272,38 @@ class KInterp:
         if st.get("early_cond") is not None:
             k.early.append((st["early_cond"], vals, names))
             return
+        acc = st.setdefault("ret_acc", [])
         if not st["G"].is_true():
-            raise Unsupported("return under an element-wise guard in %s" % st["fi"].qualname)
+            if st["loopvars"]:
+                raise Unsupported("return under an element-wise guard inside a loop in %s" % st["fi"].qualname)
+            # element-wise early return: the elements of this guard get these values, the others run on
+            acc.append((st["G"], vals, names))
+            covered = BExpr.false()
+            for g_, _, _ in acc:
+                covered = covered | g_
+            if (~covered).is_false():
+                self._compose_returns(st)
+            else:
+                st["arm_dead"] = True
+            return
+        if acc:
+            acc.append((BExpr.true(), vals, names))
+            self._compose_returns(st)
+            return
         k.outputs, k.output_names = vals, names
+        st["returned"] = True
+
+    def _compose_returns(self, st):
+        """outputs of a function whose elements return at different places: a case distinction over the return guards"""
+        k = st["kernel"]
+        acc = st["ret_acc"]
+        n = len(acc[-1][1])
+        if any(len(v) != n for _, v, _ in acc):
+            raise Unsupported("returns of different arity in %s" % st["fi"].qualname)
+        outs = list(acc[-1][1])
+        for g_, vals, _ in reversed(acc[:-1]):
+            outs = [self._select(g_, a_, b_) for a_, b_ in zip(vals, outs)]
+        k.outputs, k.output_names = outs, acc[-1][2]
         st["returned"] = True
 
     def if_stmt(self, s, st):
@@ -343,9 +372,21 @@ class KInterp:
             G0 = st["G"]
             st["G"] = G0 & test
             self.block(s.body, st)
+            st["arm_dead"] = False
+            if st["returned"]:
+                return
             st["G"] = G0 & ~test
             self.block(s.orelse, st)
+            st["arm_dead"] = False
+            if st["returned"]:
+                return
             st["G"] = G0
+            if st.get("ret_acc"):
+                # elements that returned inside the arms do not run on
+                gone = BExpr.false()
+                for g_, _, _ in st["ret_acc"]:
+                    gone = gone | g_
+                st["G"] = G0 & ~gone
             return
         raise Unsupported("if test %s evaluates to %r" % (U(s.test), test))
 
